@@ -36,7 +36,10 @@ def slots_spec(spec):
             res.setdefault(q, []).append((body,))
         else:
             segs = [(sx.unS(x[1]), x[2], sx.unS(x[3]) if isinstance(x[3], str) and x[3].startswith("s") else None) for x in body[1:-1]]
-            res.setdefault(q, []).append(("trace", segs, sx.unS(body[-1][1])))
+            lz = None
+            if len(s) > 3 and isinstance(s[3], list) and s[3][0] == "lazy":
+                lz = ([sx_text(x) for x in s[3][1:-1]], sx.unS(s[3][-1]))
+            res.setdefault(q, []).append(("trace", segs, sx.unS(body[-1][1]), lz))
     return res
 
 def check_hist(case, iout, ires, spec_text, want=("answers", "output", "exhausted", "strings")):
@@ -94,6 +97,14 @@ def check_hist(case, iout, ires, spec_text, want=("answers", "output", "exhauste
                         yield ("answers", "request %d of query %d reports no answer; the reference search has answer %s" % (pos[q] + 1, q, sx_text(ea)), {});
                     return
                 got = o[2]
+                lz = s[3] if len(s) > 3 else None
+                if lz is not None and pos[q] < len(lz[0]) and builds[q] == 0 and len(builds) == 1 and "answers" in want \
+                        and sx_text(o[1]) != lz[0][pos[q]]:
+                    # cut-free program, single query: the continuation-style reference search (Spec/SpecLazy.v, proved equal
+                    # to the model's search) fixes the substitution set itself, variable ids included
+                    yield ("answers", "answer %d of query %d has substitution set %s; the reference search (SpecLazy) gives %s"
+                           % (pos[q] + 1, q, sx_text(o[1]), lz[0][pos[q]]), {})
+                    return
                 if canon(got) != canon(ea):
                     if "answers" in want:
                         yield ("answers", "answer %d of query %d is %s; the reference search gives %s" % (pos[q] + 1, q, sx_text(got), sx_text(ea)), {})
